@@ -8,6 +8,7 @@ import RbV.Model.FastxStream
 import RbV.Lemmas.FastxStream
 import RbV.Lemmas.Utf8Lines
 import RbV.Lemmas.UniWs
+import RbV.Lemmas.FastqPrefixUtf8
 /-!
 # C11 — FASTA/FASTQ round trip is lossless and layout independent; truncated FASTQ is prefix safe
 
@@ -275,6 +276,82 @@ theorem fastq_prefix_safe_any_buffering (c : Nat) (sched : Nat → Nat) (hc : 1 
   have hp := ascii_plain_text ((writeFastq recs).take n) fun b hb => hascii b (List.mem_of_mem_take hb)
   rw [fastq_read_any_buffering c sched hc hs _ hp.1 hp.2, hk]
 
+open RbV.BufLines in
+/-- **truncated FASTQ stream, non-ASCII text, any buffering**: the file is valid UTF-8 (without non-ASCII white
+space); a cut may fall inside a multi-byte character.  The reader on the first `n` bytes yields the items of the
+line-list model, or those items with the **last** one replaced by the UTF-8 error (`InvalidData`) — whatever the
+capacity and the schedule. -/
+theorem fastq_prefix_utf8_any_buffering (c : Nat) (sched : Nat → Nat) (hc : 1 ≤ c) (hs : Admissible sched)
+    (file : Bytes) (hutf : validUtf8 file = true) (hws : NoUws file) (n : Nat) :
+    parseFastqVia Txt.unicode c sched (file.take n) = (parseFastq (file.take n)).map .item ∨
+      ∃ pre last, parseFastq (file.take n) = pre ++ [last] ∧
+        parseFastqVia Txt.unicode c sched (file.take n) = pre.map .item ++ [.utf8] := by
+  rw [fastq_read_schedule_independent _ c sched hc hs]
+  exact fqRecordsU_abl _ (abl_splitLines_take file hutf n) fun l hl =>
+    Txt.unicode_agrees l fun b hb => hws b (List.mem_of_mem_take (mem_of_mem_splitLines _ l hl b hb))
+
+open RbV.BufLines in
+/-- **prefix safety for every valid-UTF-8 FASTQ file under any buffering**: the reader on the first `n` bytes of
+the writer's output yields the first `k` original records, followed by nothing, or by one item that is
+`IncompleteRecord`, the `k`-th original record, a record failing `check()`, or the UTF-8 error. -/
+theorem fastq_prefix_safe_utf8_any_buffering (c : Nat) (sched : Nat → Nat) (hc : 1 ≤ c) (hs : Admissible sched)
+    (recs : List FqRec) (hv : ∀ r ∈ recs, ValidFq r)
+    (hutf : validUtf8 (writeFastq recs) = true) (hws : NoUws (writeFastq recs)) (n : Nat) :
+    ∃ k tail, parseFastqVia Txt.unicode c sched ((writeFastq recs).take n) =
+        (recs.take k).map (fun r => .item (.ok r)) ++ tail ∧
+      (tail = [] ∨ tail = [.item .incomplete] ∨ (∃ r, recs[k]? = some r ∧ tail = [.item (.ok r)]) ∨
+       (∃ r', tail = [.item (.ok r')] ∧ r'.check = false) ∨ tail = [.utf8]) := by
+  obtain ⟨k, t, hk, ht⟩ := fastq_prefix_safe recs hv n
+  rcases fastq_prefix_utf8_any_buffering c sched hc hs _ hutf hws n with h | ⟨pre, last, h1, h2⟩
+  · refine ⟨k, t.map .item, by rw [h, hk]; simp [Function.comp_def], ?_⟩
+    rcases ht with rfl | rfl | ⟨r, hr, rfl⟩ | ⟨r', rfl, hr'⟩
+    · left; rfl
+    · right; left; rfl
+    · right; right; left; exact ⟨r, hr, rfl⟩
+    · right; right; right; left; exact ⟨r', rfl, hr'⟩
+  · rw [hk] at h1
+    have hpre : ∃ k', pre = (recs.take k').map FqItem.ok := by
+      rcases ht with rfl | rfl | ⟨r, _, rfl⟩ | ⟨r', rfl, _⟩
+      · -- the last item of the plain parse is an original record
+        refine ⟨pre.length, ?_⟩
+        simp only [List.append_nil] at h1
+        have hlen := congrArg List.length h1
+        simp only [List.length_map, List.length_take, List.length_append, List.length_cons, List.length_nil] at hlen
+        have h3 := congrArg (List.take pre.length) h1
+        simp only [List.take_left', ← List.map_take, List.take_take] at h3
+        have hmin : min pre.length k = pre.length := by omega
+        rw [hmin] at h3
+        exact h3.symm
+      · exact ⟨k, (List.append_inj_left' h1 rfl).symm⟩
+      · exact ⟨k, (List.append_inj_left' h1 rfl).symm⟩
+      · exact ⟨k, (List.append_inj_left' h1 rfl).symm⟩
+    obtain ⟨k', hk'⟩ := hpre
+    refine ⟨k', [.utf8], ?_, Or.inr (Or.inr (Or.inr (Or.inr rfl)))⟩
+    rw [h2, hk']
+    simp [Function.comp_def]
+
+open RbV.BufLines in
+/-- … hence every record obtained from a cut stream that passes `check()` is an original record, for every buffer
+capacity and every read fragmentation (non-ASCII ids and descriptions included). -/
+theorem fastq_prefix_checked_mem_any_buffering (c : Nat) (sched : Nat → Nat) (hc : 1 ≤ c) (hs : Admissible sched)
+    (recs : List FqRec) (hv : ∀ r ∈ recs, ValidFq r)
+    (hutf : validUtf8 (writeFastq recs) = true) (hws : NoUws (writeFastq recs)) (n : Nat) (r : FqRec)
+    (hr : SItem.item (FqItem.ok r) ∈ parseFastqVia Txt.unicode c sched ((writeFastq recs).take n))
+    (hchk : r.check = true) : r ∈ recs := by
+  apply fastq_prefix_checked_mem recs hv n r _ hchk
+  rcases fastq_prefix_utf8_any_buffering c sched hc hs _ hutf hws n with h | ⟨pre, last, h1, h2⟩
+  · rw [h] at hr
+    obtain ⟨y, hy, hxy⟩ := List.mem_map.mp hr
+    cases hxy
+    exact hy
+  · rw [h2] at hr
+    rw [h1]
+    rcases List.mem_append.mp hr with hx | hx
+    · obtain ⟨y, hy, hxy⟩ := List.mem_map.mp hx
+      cases hxy
+      exact List.mem_append_left _ hy
+    · simp at hx
+
 /-! ## Non-vacuity -/
 
 private def exFa : List FaRec :=
@@ -322,5 +399,11 @@ example : parseFastqVia Txt.unicode 1 (fun _ => 1) (writeFastq exFqU) = exFqU.ma
 example : parseFastqVia Txt.unicode 1 (fun _ => 1) ((writeFastq exFqU).take 2) = [.utf8] :=
   (fastq_read_schedule_independent _ 1 _ (by decide) (fun _ => Nat.le_refl 1) _).trans
     (by simp [parseFastqU, exFqU, writeFastq, writeFastqRec, splitLines, fqRecordsU, fqReadU, validUtf8])
+
+/-- the cut inside `é` again, through the prefix theorem: whatever passes `check()` is an original record -/
+example (r : FqRec) (hr : SItem.item (FqItem.ok r) ∈ parseFastqVia Txt.unicode 2 (fun _ => 1) ((writeFastq exFqU).take 2))
+    (hc : r.check = true) : r ∈ exFqU :=
+  fastq_prefix_checked_mem_any_buffering 2 _ (by decide) (fun _ => Nat.le_refl 1) exFqU (by decide) (by decide)
+    (by decide) 2 r hr hc
 
 end RbV.Thm.C11
